@@ -64,7 +64,7 @@ pub fn run(rep: &mut Report) {
     let thorough = rep.thorough();
     let lab = Lab::new(thorough);
     let n = if thorough { 3 } else { 2 };
-    let sh = shards(&lab, if thorough { 3 } else { 2 }, &[64]);
+    let sh = shards(&lab, if thorough { 4 } else { 2 }, if thorough { &[64, 4] } else { &[64] });
     let (lab_ref, sh_ref) = (&lab, &sh);
     let a = par_shards(sh.len(), threads(), |i| {
         let mut agg = Agg::default();
